@@ -61,6 +61,8 @@ type fsState struct {
 	begun            int
 	lastStorage      string         // name of the last storage event (phase descriptor)
 	allRoots         map[string]int // every root ever begun -> ordinal
+	initial          string         // token announced by the OPEN marker
+	pfx              string
 }
 
 func newFsState() *fsState {
@@ -77,6 +79,8 @@ func (s *fsState) apply(dir, marker string, e vtrace.Event, viol func(key, what 
 			return
 		}
 		switch f[0] {
+		case "OPEN":
+			s.initial = f[2]
 		case "BEGIN":
 			s.inflight[f[2]] = true
 			s.begun++
@@ -85,10 +89,10 @@ func (s *fsState) apply(dir, marker string, e vtrace.Event, viol func(key, what 
 		case "ACK":
 			// trace rule R1: the journal must have been fsynced after its last write
 			if n := len(s.jw); n > 0 && !s.jw[n-1].synced {
-				viol("c03/trace/ack-before-journal-fsync", "commit acknowledged while the last journal write was not yet followed by fsync")
+				viol(s.pfx+"/trace/ack-before-journal-fsync", "commit acknowledged while the last journal write was not yet followed by fsync")
 			}
 			if len(s.jw) == 0 {
-				viol("c03/trace/ack-without-journal-write", "commit acknowledged without any journal write")
+				viol(s.pfx+"/trace/ack-without-journal-write", "commit acknowledged without any journal write")
 			}
 			delete(s.inflight, f[2])
 			s.lastAck = f[2]
@@ -119,7 +123,7 @@ func (s *fsState) apply(dir, marker string, e vtrace.Event, viol func(key, what 
 				end = s.jw[n-1].off + s.jw[n-1].n
 			}
 			if e.Off != end {
-				viol("c03/trace/journal-not-append-only", fmt.Sprintf("journal write at offset %d, expected %d", e.Off, end))
+				viol(s.pfx+"/trace/journal-not-append-only", fmt.Sprintf("journal write at offset %d, expected %d", e.Off, end))
 			}
 			s.jw = append(s.jw, jwrite{off: e.Off, n: e.Len})
 			s.lastStorage = "pwrite:journal"
@@ -147,7 +151,7 @@ func (s *fsState) apply(dir, marker string, e vtrace.Event, viol func(key, what 
 			}
 			v.content = append(v.content, e.Data...)
 			if int64(len(e.Data)) != e.Len {
-				viol("c03/infra/manifest-capture-truncated", "strace -s too small for manifest")
+				viol(s.pfx+"/infra/manifest-capture-truncated", "strace -s too small for manifest")
 			}
 			v.tmpSynced = false
 		case "fsync":
@@ -161,7 +165,7 @@ func (s *fsState) apply(dir, marker string, e vtrace.Event, viol func(key, what 
 					v = &manifestVer{}
 				}
 				if !v.tmpSynced {
-					viol("c03/trace/manifest-rename-before-temp-fsync", "manifest temp file renamed into place before it was fsynced")
+					viol(s.pfx+"/trace/manifest-rename-before-temp-fsync", "manifest temp file renamed into place before it was fsynced")
 				}
 				s.versions = append(s.versions, *v)
 				delete(s.tmp, e.Path)
@@ -206,6 +210,8 @@ func imagesAt(s *fsState, finalJournal, finalIdx []byte, r *rand.Rand, point int
 	allowed := []string{}
 	if s.lastAck != "" {
 		allowed = append(allowed, s.lastAck)
+	} else if s.initial != "" {
+		allowed = append(allowed, s.initial)
 	} else {
 		allowed = append(allowed, hash.Hash{}.String())
 	}
@@ -438,6 +444,9 @@ func writeImage(dir string, im *image) {
 	}
 }
 
+// reopenCmd is the sub-command runReopenBatch spawns (set by crashEnumerate; one enumerator per worker process).
+var reopenCmd = "c03-reopen"
+
 // runReopenBatch materialises the images, reopens them in parallel child processes and returns results by image.
 func runReopenBatch(c *rig.Ctx, images []*image, label string) map[*image]*reopenResult {
 	base := c.TempDir("img")
@@ -463,7 +472,7 @@ func runReopenBatch(c *rig.Ctx, images []*image, label string) map[*image]*reope
 			defer wg.Done()
 			lf := filepath.Join(base, fmt.Sprintf("list%d", p))
 			rig.Must(os.WriteFile(lf, []byte(strings.Join(lists[p], "\n")+"\n"), 0o644))
-			cmd := exec.Command(rig.Self(), "c03-reopen", lf)
+			cmd := exec.Command(rig.Self(), reopenCmd, lf)
 			var stderr bytes.Buffer
 			cmd.Stderr = &stderr
 			stdout, err := cmd.Output()
@@ -530,7 +539,27 @@ func journalRecords(j []byte) []recInfo {
 	return out
 }
 
+// crashCfg parametrises the crash-image enumerator: C03 drives raw chunk-store histories, C21 drives
+// datas.Database histories whose "root" token is the (branch head, working set) pair.
+type crashCfg struct {
+	prefix    string // key / counter prefix: c03 | c21
+	writer    string // writer sub-command
+	reopen    string // reopen sub-command
+	dataLoss  bool   // run the synced-damage (data-loss clause) sub-stage
+	hugeShape bool   // include the 70 MB "huge" shape
+	quick     int
+	thorough  int
+	what      string // what the recovered token is, for messages
+	empty     string // token of the empty store (before anything was committed); "" = the zero hash
+}
+
 func c03(c *rig.Ctx) {
+	crashEnumerate(c, crashCfg{prefix: "c03", writer: "c03-writer", reopen: "c03-reopen", dataLoss: true, hugeShape: true, quick: 12, thorough: 300, what: "root"})
+}
+
+func crashEnumerate(c *rig.Ctx, cfg crashCfg) {
+	reopenCmd = cfg.reopen
+	pfx := cfg.prefix
 	c.Rule("each history = a PRNG sequence of puts/commits/refused commits by a traced writer process on a fresh journaling " +
 		"store; every event boundary of its syscall trace is a crash point; per crash point the images {process-crash, " +
 		"durable-only (x old/new manifest when the rename is not yet dir-synced, x journal file missing when its creation is not " +
@@ -539,16 +568,16 @@ func c03(c *rig.Ctx) {
 		"distinct by content hash and non-trivial when the store contains at least one journal write")
 	c.Assume("power-loss model at syscall granularity: fsynced data survives; un-fsynced writes may be absent, torn at byte granularity, zeroed or garbage; a rename/creat survives once the directory was fsynced; no sector reordering inside one write")
 	c.Assume("strace (ptrace) totally orders the completed syscalls of the writer, including its BEGIN/ACK marker writes")
-	nh := c.Pick(12, 300)
+	nh := c.Pick(cfg.quick, cfg.thorough)
 	shapes := []string{"small", "small", "small", "big"}
 	var allImages, unsyncedPoints, tornRoot, inflightPts, dataLossReported, hugeRuns int
 	for h := 0; h < nh; h++ {
-		r := c.SubRand("c03", h)
+		r := c.SubRand(pfx, h)
 		shape := shapes[r.Intn(len(shapes))]
 		if c.Thorough() && h%40 == 7 {
 			shape = "many"
 		}
-		if h == nh-1 || c.Thorough() && h%25 == 3 {
+		if cfg.hugeShape && (h == nh-1 || c.Thorough() && h%25 == 3) {
 			shape = "huge"
 		}
 		steps := 6 + r.Intn(14)
@@ -556,17 +585,17 @@ func c03(c *rig.Ctx) {
 			steps = 5 + r.Intn(6)
 		}
 		seed := r.Int63()
-		work := c.TempDir("c03h")
+		work := c.TempDir(pfx+"h")
 		dbdir := filepath.Join(work, "db")
 		rig.Must(os.MkdirAll(dbdir, 0o755))
 		marker := filepath.Join(work, "markers")
 		tlog := filepath.Join(work, "trace.log")
-		c.Case(fmt.Sprintf("c03/history/%d", h), map[string]any{"writer_seed": seed, "steps": steps, "shape": shape})
-		args := append(vtrace.StraceArgs(tlog, 4096), rig.Self(), "c03-writer", dbdir, fmt.Sprint(seed), marker, fmt.Sprint(steps), shape)
+		c.Case(fmt.Sprintf(pfx+"/history/%d", h), map[string]any{"writer_seed": seed, "steps": steps, "shape": shape})
+		args := append(vtrace.StraceArgs(tlog, 4096), rig.Self(), cfg.writer, dbdir, fmt.Sprint(seed), marker, fmt.Sprint(steps), shape)
 		cmd := exec.Command("strace", args...)
 		outb, err := cmd.CombinedOutput()
 		if err != nil {
-			c.Violation("c03/writer-failed", fmt.Sprintf("the traced writer failed on a healthy store: %v: %s", err, tail(outb, 600)), nil)
+			c.Violation(pfx+"/writer-failed", fmt.Sprintf("the traced writer failed on a healthy store: %v: %s", err, tail(outb, 600)), nil)
 			os.RemoveAll(work)
 			continue
 		}
@@ -575,6 +604,8 @@ func c03(c *rig.Ctx) {
 		finalJournal, _ := os.ReadFile(filepath.Join(dbdir, journalName))
 		finalIdx, _ := os.ReadFile(filepath.Join(dbdir, "journal.idx"))
 		st := newFsState()
+		st.pfx = pfx
+		st.initial = cfg.empty
 		seen := map[string]bool{}
 		var images []*image
 		traceViol := map[string]string{}
@@ -625,7 +656,7 @@ func c03(c *rig.Ctx) {
 		var dlImages []*image
 		var dlMust []bool
 		finalManifest, _ := os.ReadFile(filepath.Join(dbdir, "manifest"))
-		for k := 0; k < 6 && len(recs) > 2 && shape != "huge"; k++ {
+		for k := 0; k < 6 && len(recs) > 2 && shape != "huge" && cfg.dataLoss; k++ {
 			i := r.Intn(len(recs))
 			j := append([]byte{}, finalJournal...)
 			rec := recs[i]
@@ -655,7 +686,7 @@ func c03(c *rig.Ctx) {
 		}
 		res := runReopenBatch(c, append(images, dlImages...), fmt.Sprint(h))
 		allImages += len(images) + len(dlImages)
-		c.Count("c03.crash_points", points)
+		c.Count(pfx+".crash_points", points)
 		for _, im := range images {
 			rr := res[im]
 			if rr == nil {
@@ -667,26 +698,26 @@ func c03(c *rig.Ctx) {
 				"journal_len": len(im.Journal), "manifest": string(im.Manifest)}
 			switch {
 			case rr.Panic != "":
-				c.Violation("c03/recovery-crashed/"+class, "recovery panicked / died: "+firstLine(rr.Panic), wit)
+				c.Violation(pfx+"/recovery-crashed/"+class, "recovery panicked / died: "+firstLine(rr.Panic), wit)
 			case rr.Err != "":
 				if rr.DataLoss && im.MayReport {
 					dataLossReported++
 					continue
 				}
-				c.Violation("c03/reopen-error/"+class, "reopening a crash image failed: "+firstLine(rr.Err), wit)
+				c.Violation(pfx+"/reopen-error/"+class, "reopening a crash image failed: "+firstLine(rr.Err), wit)
 			default:
 				if !contains(im.Allowed, rr.Root) {
 					kind := "unknown-root"
-					if _, ok := st.allRoots[rr.Root]; ok || rr.Root == (hash.Hash{}).String() {
+					if _, ok := st.allRoots[rr.Root]; ok || rr.Root == (hash.Hash{}).String() || rr.Root == st.initial {
 						kind = "lost-acknowledged-commit"
 					}
-					c.Violation("c03/root-not-allowed/"+kind+"/"+class, fmt.Sprintf("recovered root %s is neither the last acknowledged nor an in-flight commit", rr.Root), wit)
+					c.Violation(pfx+"/root-not-allowed/"+kind+"/"+class, fmt.Sprintf("recovered %s %s is neither the last acknowledged state nor an in-flight one", cfg.what, rr.Root), wit)
 				} else if rr.Missing != "" {
-					c.Violation("c03/closure-unreadable/"+class, "recovered root references a chunk that cannot be read: "+rr.Missing, wit)
+					c.Violation(pfx+"/closure-unreadable/"+class, "recovered root references a chunk that cannot be read: "+rr.Missing, wit)
 				} else if rr.BadHash != "" {
-					c.Violation("c03/content-hash-mismatch/"+class, "recovered chunk content does not hash to its address: "+rr.BadHash, wit)
+					c.Violation(pfx+"/content-hash-mismatch/"+class, "recovered chunk content does not hash to its address: "+rr.BadHash, wit)
 				} else if rr.Err2 != "" || rr.Root2 != rr.Root || rr.Missing2 != "" || rr.JournalLn2 < rr.JournalLen {
-					c.Violation("c03/recovery-not-fixpoint/"+class, fmt.Sprintf("second open of the recovered directory differs (root %s -> %s, err=%s, journal %d -> %d bytes: it must not shrink again)", rr.Root, rr.Root2, rr.Err2, rr.JournalLen, rr.JournalLn2), wit)
+					c.Violation(pfx+"/recovery-not-fixpoint/"+class, fmt.Sprintf("second open of the recovered directory differs (root %s -> %s, err=%s, journal %d -> %d bytes: it must not shrink again)", rr.Root, rr.Root2, rr.Err2, rr.JournalLen, rr.JournalLn2), wit)
 				}
 				if rr.Root != im.Allowed[0] || len(im.Allowed) > 1 {
 					tornRoot++
@@ -701,12 +732,12 @@ func c03(c *rig.Ctx) {
 			wit := map[string]any{"image": im.ID, "history": h, "writer_seed": seed, "result": rr, "must_report": dlMust[k]}
 			switch {
 			case rr.Panic != "":
-				c.Violation("c03/recovery-crashed/synced-damage", firstLine(rr.Panic), wit)
+				c.Violation(pfx+"/recovery-crashed/synced-damage", firstLine(rr.Panic), wit)
 			case rr.DataLoss:
 				dataLossReported++
-				c.Count("c03.dataloss_reported_for_synced_damage", 1)
+				c.Count(pfx+".dataloss_reported_for_synced_damage", 1)
 			case dlMust[k]:
-				c.Violation("c03/dataloss-not-reported", "damage inside a synced journal followed by a valid root record and a further valid record was silently accepted/truncated", wit)
+				c.Violation(pfx+"/dataloss-not-reported", "damage inside a synced journal followed by a valid root record and a further valid record was silently accepted/truncated", wit)
 			}
 			// (No closure assertion here: a fully synced journal damaged after a clean shutdown is bit rot, not a crash
 			// image — the manifest may legitimately name a root whose records were destroyed. That is C10's subject.
@@ -720,12 +751,12 @@ func c03(c *rig.Ctx) {
 			break
 		}
 	}
-	c.Count("c03.images_reopened", allImages)
-	c.Count("c03.crash_points_with_unsynced_journal_writes", unsyncedPoints)
-	c.Count("c03.crash_points_with_inflight_commit", inflightPts)
-	c.Count("c03.images_recovering_inflight_or_contested_root", tornRoot)
-	c.Count("c03.dataloss_reports_accepted", dataLossReported)
-	c.Count("c03.huge_histories_with_index_flush_and_intermediate_sync", hugeRuns)
+	c.Count(pfx+".images_reopened", allImages)
+	c.Count(pfx+".crash_points_with_unsynced_journal_writes", unsyncedPoints)
+	c.Count(pfx+".crash_points_with_inflight_commit", inflightPts)
+	c.Count(pfx+".images_recovering_inflight_or_contested_root", tornRoot)
+	c.Count(pfx+".dataloss_reports_accepted", dataLossReported)
+	c.Count(pfx+".huge_histories_with_index_flush_and_intermediate_sync", hugeRuns)
 	c.Require(allImages > 0 && inflightPts > 0, "no crash point with an in-flight commit")
 }
 
